@@ -1,6 +1,18 @@
 # per-property claim texts used by mk_manifest.py
 NA = {}
 CLAIMS = {
+ 'C01': {
+  'technique': 'Coq proofs over an arbitrary commutative ring that every grad-sampler formula is the adjoint of its layer (affine in its parameters) for one sample alone, all extents; formulas tied to the sources by generated pins and exact integer correspondence; single-sample autograd oracle over architectures x modes',
+  'text': ('PARTIAL. Proved for all extents, inputs, cotangents and perturbations, over any commutative ring: the formulas used by the registered samplers of nn.Linear / RNNLinear (weight, bias, any input rank), '
+           'nn.Embedding (with padding_idx: zero padding row) and the affine part of GroupNorm / LayerNorm / InstanceNorm satisfy <gs, delta> = <g, layer(theta+delta, x) - layer(theta, x)> '
+           'for the sample alone, and this identity determines the gradient uniquely; several uses of a layer in one forward (tied weights, recurrent steps) add up; multiplying by the batch '
+           'length undoes mean reduction; per-sample gradients sum to the batch gradient. Which formula each registered sampler computes is read off the einsum strings / expressions of the '
+           'sources (generated table, pins of the hook arithmetic), and the Linear / RNNLinear / Embedding samplers are run on small-integer tensors against the formulas evaluated on Z in Coq '
+           '(equality). The property itself is tested on composed architectures (mlp rank 2-4, batch-second, conv1d-3d with stride / padding / same / dilation / groups, norms, Embedding with '
+           'padding, EmbeddingBag with repeated indices, DP recurrent layers padded / packed, DP attention, custom layer, tied + frozen) x hooks / functorch / ew x mean / sum x batch 0-4 '
+           'with a generic cotangent, against autograd on each sample alone. Not proved: autograd, functorch, ExpandedWeights, unfold, F.*_norm. Two repaired defects, two recorded findings '
+           '(packed-unsorted recurrent row order; torch ExpandedWeights padding row).'),
+ },
  'C14': {
   'technique': 'Coq proofs (all extents, both layouts) that the head split / merge reshape sequences regenerated from forward() realise the intended index maps and are mutually inverse; index-coded probe of the same sequences on torch; numeric equivalence runs vs nn.MultiheadAttention',
   'text': ('PARTIAL. The contiguous / view / transpose sequences of DPMultiheadAttention.forward (head split of q, k, v; head merge for batch_first False and True) are regenerated from the '
